@@ -41,9 +41,9 @@ def build(spec, env):
 class Run:
     """everything observed in one scheduler run"""
 
-    def __init__(self, spec, clause="C12.no_exception", monitor=None):
+    def __init__(self, spec, clause="C12.no_exception", monitor=None, lab=None):
         self.spec = spec
-        self.lab = lab = Lab(clause=clause)
+        self.lab = lab = lab if lab is not None else Lab(clause=clause)
         self.sched = sched = build(spec, lab.env)
         self.out = lab.tap("out")
         sched.out = self.out
@@ -139,6 +139,15 @@ class Run:
 
     def check_all_exited(self):
         ins, outs = self.entry.recs, self.out.recs
+        known = {id(r.pkt) for r in ins}
+        seen = set()
+        for o in outs:
+            if id(o.pkt) not in known:
+                raise Violation("C12.exactly_once", f"the scheduler transmitted a packet that never entered it (id {o.snap[0]}, flow "
+                                                    f"{o.snap[1]}, t={o.now})", "C12.exactly_once/foreign")
+            if id(o.pkt) in seen:
+                raise Violation("C12.exactly_once", f"packet {o.snap[0]} of flow {o.snap[1]} transmitted twice", "C12.exactly_once/twice")
+            seen.add(id(o.pkt))
         if len(outs) != len(ins):
             missing = [r.snap[:2] for r in ins if all(o.pkt is not r.pkt for o in outs)]
             raise Violation("C12.exactly_once", f"{len(ins)} packets entered, {len(outs)} transmitted; never transmitted "
